@@ -1,7 +1,9 @@
 (* Props/C04.v — integer and float fields decode correctly at every size, offset and byte order. *)
 From Coq Require Import ZArith List.
 From SPP Require Import Base.Bytes Base.Sx Base.Floats Model.Cursor Model.Values Model.Criteria Model.Doc Model.Decode
-  Proofs.NumericP Proofs.Half.Base Proofs.Half.All.
+  Proofs.NumericP Proofs.Half.Base Proofs.Half.All Proofs.IeeeRealP Proofs.BitsP.
+From Coq Require Import Reals.
+From Flocq Require Import Core.Core IEEE754.BinarySingleNaN.
 Import ListNotations.
 Open Scope Z_scope.
 
@@ -50,3 +52,28 @@ Print Assumptions C04_float_glue.
 Theorem C04_half_exhaustive : forall bits, 0 <= bits < 65536 -> to_bits64 (dec_ieee 5 10 bits) = widen16 bits.
 Proof. exact half_exhaustive. Qed.
 Print Assumptions C04_half_exhaustive.
+
+(* ---- what an IEEE pattern means, for every width: the three bit fields (sign: bit ew+mw, exponent: the next ew bits, fraction:
+   the low mw bits) denote, exactly and without rounding,
+       (-1)^s * f * 2^(1 - bias - mw)              when the exponent field E is 0          (zero and subnormal numbers)
+       (-1)^s * (2^mw + f) * 2^(E - bias - mw)     when 0 < E < 2^ew - 1                   (normal numbers)
+   with bias = 2^(ew-1) - 1; the result is finite and carries the sign bit (also on zeros).
+   binary16 is (5, 10), binary32 (8, 23), binary64 (11, 52): the decoders of C04_float_glue are [to_bits64 (dec_ieee ew mw bits)]. ---- *)
+Theorem C04_ieee_value : forall ew mw bits, 2 <= ew <= 11 -> 1 <= mw <= 52 -> field_e ew mw bits <> 2 ^ ew - 1 ->
+  B2R (dec_ieee ew mw bits) =
+    F2R (Float radix2 (cond_Zopp (field_s ew mw bits) (ieee_m (field_e ew mw bits) (field_m mw bits) mw)) (ieee_e (field_e ew mw bits) ew mw)) /\
+  is_finite (dec_ieee ew mw bits) = true /\ Bsign (dec_ieee ew mw bits) = field_s ew mw bits.
+Proof. exact dec_ieee_real. Qed.
+Print Assumptions C04_ieee_value.
+
+(* all-ones exponent field: infinity of the pattern's sign when the fraction is zero, otherwise NaN *)
+Theorem C04_ieee_special : forall ew mw bits, 0 <= ew -> 0 <= mw -> field_e ew mw bits = 2 ^ ew - 1 ->
+  dec_ieee ew mw bits = if field_m mw bits =? 0 then B754_infinity (field_s ew mw bits) else B754_nan.
+Proof. exact dec_ieee_special. Qed.
+Print Assumptions C04_ieee_special.
+
+(* the 64-bit pattern that carries a float through the models loses nothing: decoding the carrier of a value gives the value
+   (all NaNs being one NaN) *)
+Theorem C04_carrier_faithful : forall x : b64, of_bits64 (to_bits64 x) = x.
+Proof. exact bits_roundtrip. Qed.
+Print Assumptions C04_carrier_faithful.
